@@ -45,11 +45,6 @@ def generate():
     mi = re.search(r'^\s+INVALID\s*=\s*(\d+)\s*$', m.group(1), re.M)
     if not mi:
         raise RuntimeError('gen_c09: MessageType.INVALID not found')
-    # the loader and the saver must be using the pieces the model transcribes
-    fi = vf.repo_file(FI)
-    for needle in ('np.fromfile(index_path, dtype=FileIndex._RAW_DTYPE)', 'Timestamp._INVALID', 'enum_class_invalid=MessageType.INVALID'):
-        if needle not in fi:
-            raise RuntimeError('gen_c09: file_index.py no longer contains %r' % needle)
     vals = {'TIME_INVALID': ts, 'TYPE_INVALID': int(mi.group(1)),
             'REC_TIME_BYTES': fields[0][1], 'REC_TYPE_BYTES': fields[1][1], 'REC_OFF_BYTES': fields[2][1]}
     t = vf.gen_header([FI, TS, DEFS])
